@@ -34,7 +34,7 @@ def sample_dist_cfg(rng, kinds=None):
     res = bool(rng.random() < 0.5)
     return {"dist": "mademog", "features": int(rng.integers(1, 4)), "hidden": int(rng.choice([4, 8])),
             "ctx": int(rng.choice([0, 2])), "comps": int(rng.integers(1, 5)), "blocks": int(rng.choice([1, 2])),
-            "residual": res, "random_mask": (not res) and bool(rng.random() < 0.6)}
+            "residual": res, "random_mask": (not res) and bool(rng.random() < 0.6), "narrow": bool(rng.random() < 0.3)}
 
 
 def build_dist(cfg, seed=0, pscale=1.0):
@@ -65,6 +65,10 @@ def build_dist(cfg, seed=0, pscale=1.0):
         with torch.no_grad():
             for p in d.parameters():
                 p.add_(torch.randn(p.shape) * 0.3 * pscale)
+            if cfg.get("narrow"):
+                # narrow mixture components: unconstrained stds around -5 (softplus ~ 7e-3, below the epsilon floor)
+                b = d._made.final_layer.bias
+                b[2::3] = -5.0 + torch.randn(b[2::3].shape)
         return d
     raise ValueError(k)
 
@@ -209,7 +213,13 @@ def sample_program_flow(rng, D):
             parts.append(c)
             base = "standard"
     return {"flow": "program", "D": D, "ctx": ctx, "data": data, "parts": parts, "base": base,
-            "embed": bool(ctx and rng.random() < 0.3), "policy": str(rng.choice(["fresh", "randn0.3", "randn1"]))}
+            "embed": bool(ctx and rng.random() < 0.3), "embed_same_width": bool(rng.random() < 0.5),
+            "narrow": bool(rng.random() < 0.3), "policy": str(rng.choice(["fresh", "randn0.3", "randn1"]))}
+
+
+def embed_width(cfg):
+    """input width of the embedding net: 3 (changes the width) or the context width itself (silent if mixed up)"""
+    return cfg["ctx"] if cfg.get("embed_same_width") else 3
 
 
 def build_program_flow(cfg, seed):
@@ -238,9 +248,13 @@ def build_program_flow(cfg, seed):
     else:
         base = Dd.MADEMoG(features=D, hidden_features=8, context_features=(ctx or None), num_blocks=1,
                           num_mixture_components=3, custom_initialization=True)
-    emb = nn.Sequential(nn.Linear(3, ctx), nn.Tanh()) if cfg.get("embed") else None
+    emb = nn.Sequential(nn.Linear(embed_width(cfg), ctx), nn.Tanh()) if cfg.get("embed") else None
     f = Fl.Flow(tr, base, embedding_net=emb)
     zoo.apply_policy(f, cfg.get("policy", "randn0.3"), seed + 1)
+    if cfg["base"] == "mademog" and cfg.get("narrow"):
+        with torch.no_grad():
+            b = base._made.final_layer.bias
+            b[2::3] = -5.0 + torch.randn(b[2::3].shape)
     if cfg["base"] == "diag":
         with torch.no_grad():
             base.mean_.copy_(torch.randn(base.mean_.shape) * 0.5)
@@ -262,5 +276,5 @@ def program_data_sample(cfg, n, seed):
         x = torch.tanh(z)
     else:
         x = z * 1.5
-    c = torch.randn(n, 3 if cfg.get("embed") else cfg["ctx"], generator=g) if cfg["ctx"] else None
+    c = torch.randn(n, embed_width(cfg) if cfg.get("embed") else cfg["ctx"], generator=g) if cfg["ctx"] else None
     return x, c
